@@ -271,7 +271,10 @@ impl BitFont {
 
         // glyphs
         for i in 0..self.length {
-            data.extend(&self.get_glyph(unsafe { char::from_u32_unchecked(i as u32) }).unwrap().data);
+            let Some(glyph) = char::from_u32(i as u32).and_then(|ch| self.get_glyph(ch)) else {
+                return Err(FontError::FontNotFound.into());
+            };
+            data.extend(&glyph.data);
         }
 
         Ok(data)
